@@ -468,21 +468,28 @@ pub fn run(ctx: &Ctx) {
         let step = (per / 50).max(1);
         let next = std::sync::atomic::AtomicUsize::new(0);
         let results: std::sync::Mutex<Vec<(u64, u64, ChildOutcome)>> = std::sync::Mutex::new(Vec::new());
-        let remaining = || ctx.deadline.saturating_duration_since(Instant::now()).max(Duration::from_secs(90));
+        // a job normally takes a few seconds; a child that needs longer than this is treated as hung
+        let child_timeout = Duration::from_secs(ctx.tier.pick(75, 900));
+        let stop = std::sync::atomic::AtomicBool::new(false);
         std::thread::scope(|s| {
             for _ in 0..ctx.threads {
                 s.spawn(|| loop {
                     let j = next.fetch_add(1, std::sync::atomic::Ordering::Relaxed);
-                    if j >= ranges.len() {
+                    if j >= ranges.len() || stop.load(std::sync::atomic::Ordering::Relaxed) {
                         break;
                     }
                     let (a, b) = ranges[j];
-                    let o = run_child(tier, part, a, b, step, remaining());
+                    let o = run_child(tier, part, a, b, step, child_timeout);
+                    if o.done.is_none() {
+                        // one dead or hung child is a verdict for this part: do not start further jobs
+                        stop.store(true, std::sync::atomic::Ordering::Relaxed);
+                    }
                     results.lock().unwrap().push((a, b, o));
                 });
             }
         });
         let mut inputs_done = 0u64;
+        let mut narrowed = false;
         let mut part_calls = 0u64;
         let mut part_nontrivial = 0u64;
         let mut part_exec = 0u64;
@@ -503,10 +510,15 @@ pub fn run(ctx: &Ctx) {
                     }
                 }
                 None => {
-                    // the child died or hung: narrow the block down to one input
+                    // the child died or hung: narrow the block down to one input (once per part)
+                    if narrowed {
+                        ctx.set("exhaustive", json!(false));
+                        continue;
+                    }
+                    narrowed = true;
                     let block = o.last_at.unwrap_or(a);
                     let block_end = (block + step).min(b);
-                    let narrow = run_child(tier, part, block, block_end, 1, Duration::from_secs(60));
+                    let narrow = run_child(tier, part, block, block_end, 1, Duration::from_secs(45));
                     if narrow.done.is_some() {
                         ctx.machinery_error(format!(
                             "part {}: child for {}..{} ended with `{}` but the block {}..{} completes when re-run alone",
@@ -522,7 +534,7 @@ pub fn run(ctx: &Ctx) {
                         class: format!("{}/{}", kind, part),
                         summary: format!(
                             "child process {} on input #{} of part {} ({}): {:?}",
-                            if narrow.timed_out { "did not terminate within 60 s" } else { "died" },
+                            if narrow.timed_out { "did not terminate within 45 s" } else { "died" },
                             idx,
                             part,
                             narrow.status,
